@@ -73,7 +73,7 @@ def run_mode(ctx, mode, count, pid, collide=False, oracle=None):
 
 
 def run(ctx):
-    return run_mode(ctx, MODE, 120 if ctx.tier == "quick" else 4000, PID)
+    return run_mode(ctx, MODE, 120 if ctx.tier == "quick" else 1500, PID)
 
 
 def search(ctx, broken):
